@@ -103,8 +103,9 @@ def kwargs_sources(fn: FunctionInfo) -> Dict[str, bool]:
     return out
 
 
-def rule_rebuild(idx: ProgramIndex, rep: Report):
-    rep.rule("C02.R", "rebuild sites bind to the subclass constructor and forward its value-bearing flags", floor=150)
+def rule_rebuild(idx: ProgramIndex, rep: Report, rule: str = "C02.R", prop: str = PROP, only_methods: Optional[Set[str]] = None,
+                 floor: int = 150, title: str = "rebuild sites bind to the subclass constructor and forward its value-bearing flags"):
+    rep.rule(rule, title, floor=floor)
     base = idx.operator_base()
     records: Dict[str, CtorRecord] = {c.name: ctor_record(idx, c) for c in idx.operator_classes()}
     flags_of: Dict[str, Dict[str, str]] = {}
@@ -129,6 +130,8 @@ def rule_rebuild(idx: ProgramIndex, rep: Report):
             fn = idx.resolve_method(c, mname)
             if fn is None or fn.cls is None or mname == "__init__":
                 continue
+            if only_methods is not None and mname not in only_methods:
+                continue
             for call, kind in rebuild_calls(fn, fn.cls):
                 if kind == "explicit" and fn.cls is not c:
                     continue  # builds the named class, whatever the receiver: not a rebuild of c
@@ -152,8 +155,8 @@ def rule_rebuild(idx: ProgramIndex, rep: Report):
                         if i >= npos and p not in kw_named:
                             problems.append(f"required parameter `{p}` not supplied")
                 if problems:
-                    rep.bad("C02.R", Finding(
-                        PROP, "C02.R", where, norm(call),
+                    rep.bad(rule, Finding(
+                        prop, rule, where, norm(call),
                         f"{where}: `{short(call, 80)}` does not bind to {c.name}.__init__({', '.join(rec.all_params())}): "
                         + "; ".join(problems) + " - the rewrite raises instead of returning the rebuilt operator",
                         fn.loc(call)))
@@ -183,11 +186,11 @@ def rule_rebuild(idx: ProgramIndex, rep: Report):
                         missing.append((p, why))
                 sample = {"class": c.name, "site": site, "call": short(call, 90), "flags": sorted(flags)}
                 if not missing:
-                    rep.ok("C02.R", sample)
+                    rep.ok(rule, sample)
                 for p, why in missing:
                     via = "nothing"
-                    rep.bad("C02.R", Finding(
-                        PROP, "C02.R", where, f"{norm(call)} [{p}]",
+                    rep.bad(rule, Finding(
+                        prop, rule, where, f"{norm(call)} [{p}]",
                         f"{where}: the rebuild `{short(call, 80)}` passes `{p}` through {via}; `{p}` is value bearing "
                         f"({why}), so the rewritten operator is built with the default and denotes a different matrix",
                         fn.loc(call)))
